@@ -278,4 +278,59 @@ def sGetAtt (E : Env) (s : SFile) (varid : Int) (raw : Name) (asText : Bool) : I
           else if (a.xtype = NC_CHAR) ≠ asText then (NC_ECHAR, [])
           else (NC_NOERR, a.vals)
 
+/-! ### the reference model of a whole program -/
+
+structure SWorld where
+  files : List (Option SFile)
+  disks : List (Option (Nat × SHdr))
+
+def SWorld.file (w : SWorld) (s : Nat) : Option SFile := (w.files[s]?).getD none
+def SWorld.disk (w : SWorld) (s : Nat) : Option (Nat × SHdr) := (w.disks[s]?).getD none
+
+def SWorld.on (w : SWorld) (s : Nat) (g : SFile → SFile × Int × Int) : SWorld × Int × Int :=
+  match w.file s with
+  | none => (w, NC_EBADID, -1)
+  | some f => ({ w with files := w.files.set s (some (g f).1) }, (g f).2)
+
+def swstep (E : Env) (w : SWorld) : MOp → SWorld × Int × Int
+  | .create s c =>
+    match w.file s with
+    | some _ => (w, NC_EINVAL, -1)
+    | none => ({ files := w.files.set s (some (sCreate c.format)), disks := w.disks.set s none }, NC_NOERR, -1)
+  | .openF s _ _ _ _ write =>
+    match w.file s, w.disk s with
+    | none, some (fmt, d) => ({ w with files := w.files.set s (some (sOpen fmt d (!write))) }, NC_NOERR, -1)
+    | _, _ => (w, NC_EINVAL, -1)
+  | .close s =>
+    match w.file s with
+    | none => (w, NC_EBADID, -1)
+    | some f =>
+      ({ files := w.files.set s none, disks := w.disks.set s ((sClose f).map (fun d => (f.format, d))) }, NC_NOERR, -1)
+  | .enddef s => w.on s (fun f => ((sEnddef f).1, (sEnddef f).2, -1))
+  | .redef s => w.on s (fun f => ((sRedef f).1, (sRedef f).2, -1))
+  | .defDim s raw size => w.on s (fun f => sDefDim E f raw size)
+  | .renameDim s dimid raw => w.on s (fun f => ((sRenameDim E f dimid raw).1, (sRenameDim E f dimid raw).2, -1))
+  | .defVar s raw xtype dimids => w.on s (fun f => sDefVar E f raw xtype dimids)
+  | .renameVar s varid raw => w.on s (fun f => ((sRenameVar E f varid raw).1, (sRenameVar E f varid raw).2, -1))
+  | .putAtt s varid raw isText xtype vals =>
+    w.on s (fun f => ((sPutAtt E f varid raw isText xtype vals).1, (sPutAtt E f varid raw isText xtype vals).2, -1))
+  | .renameAtt s varid raw rawNew =>
+    w.on s (fun f => ((sRenameAtt E f varid raw rawNew).1, (sRenameAtt E f varid raw rawNew).2, -1))
+  | .delAtt s varid raw => w.on s (fun f => ((sDelAtt E f varid raw).1, (sDelAtt E f varid raw).2, -1))
+  | .copyAtt s varid raw s2 varid2 =>
+    match w.file s with
+    | none => (w, NC_EBADID, -1)
+    | some fin =>
+      w.on s2 (fun fout => ((sCopyAtt E fin varid raw fout varid2 (s == s2)).1,
+                            (sCopyAtt E fin varid raw fout varid2 (s == s2)).2, -1))
+
+def swrun (E : Env) : SWorld → List MOp → SWorld × List (Int × Int)
+  | w, [] => (w, [])
+  | w, op :: rest =>
+    let r := swstep E w op
+    let rr := swrun E r.1 rest
+    (rr.1, r.2 :: rr.2)
+
+def SWorld.init (nslots : Nat) : SWorld := ⟨List.replicate nslots none, List.replicate nslots none⟩
+
 end PnVerif.Meta
